@@ -8,6 +8,7 @@ import (
 	"fmt"
 	"os"
 	"path/filepath"
+	"runtime"
 
 	"github.com/libp2p/go-libp2p/core/crypto"
 
@@ -424,7 +425,10 @@ func (s *state) addr(c *hx.Ctx, o hx.Op) string {
 	return "ok addr=" + hx.Hex(got)
 }
 
+var procs0 = runtime.GOMAXPROCS(0)
+
 func runC19(c *hx.Ctx) {
+	defer runtime.GOMAXPROCS(procs0)
 	root := os.Getenv("VERIF_WORK")
 	if root == "" {
 		root = os.TempDir()
@@ -445,6 +449,7 @@ func runC19(c *hx.Ctx) {
 		switch o.Verb {
 		case "reset":
 			s.reset()
+			runtime.GOMAXPROCS(procs0)
 			obs = "ok"
 		case "create":
 			obs = s.create(c, o.Bytes("pass"))
@@ -458,6 +463,19 @@ func runC19(c *hx.Ctx) {
 			obs = s.put(c, o)
 		case "addr":
 			obs = s.addr(c, o)
+		case "procs":
+			// the host's parallelism between a save and a later load/export (0 = back to the start value): a key file
+			// must not depend on the machine it was written on
+			n := o.Int("n")
+			if n < 0 || n > 64 {
+				obs = "bad-op"
+				break
+			}
+			if n == 0 {
+				n = procs0
+			}
+			runtime.GOMAXPROCS(n)
+			obs = "ok"
 		default:
 			obs = "bad-op"
 		}
